@@ -98,6 +98,7 @@ def register(reg):
     register_defaults(reg)
     register_adoption_axioms(reg)
     register_validation_axioms(reg)
+    register_paths(reg)
 
 
 def setvalue_clauses(key):
@@ -335,3 +336,20 @@ def register_validation_axioms(reg):
         c = reg.contracts[q]
         c.defines_ensures["A.validation-keeps-links"] = "heap_unchanged()"
         c.defines_raises["A.validation-keeps-links"] = "heap_unchanged()"
+
+
+def register_paths(reg):
+    C = reg.contract
+    JOIN = "ite(len(%s) > 0, %s + '.' + self._key, self._key)"
+    C("core:Config._ref_path", params={}, returns="str", modifies=["fresh", "ncalls"], noraise=True,
+      defines_ensures={"C15.path-of": "result == cfg_path(self)"},
+      ensures={
+          "C15.child-path-extends-parent-path": "implies(self._parent is not None and self._container is None, result == %s)" % (JOIN % ("cfg_path(self._parent)", "cfg_path(self._parent)")),
+          "C15.root-path-is-its-key": "implies(self._parent is None and self._schema._schema is None and self._container is None, result == self._key)",
+          "C13.read-only": "heap_unchanged()",
+      })
+    C("core:ContainerValueMixin._get_item_position", virtual=True, abstract=True, params={"item": "any"}, returns="any", modifies=["fresh"],
+      ensures={"C13.read-only": "heap_unchanged()"}, raises={"C13.read-only": "heap_unchanged()"})
+    C("core:BaseField._ref_path", params={}, returns="str", modifies=["fresh"], noraise=True, trusted=True,
+      ensures={"C16.path-of": "result == field_path(self)", "C13.read-only": "heap_unchanged()"},
+      note="while loop over the schema chain building a reversed list joined with '.': list reversal/join are outside the subset; decided by the bounded C16/C15 drivers")
